@@ -12,7 +12,7 @@ use crate::io::port::{Exhausted, PortState, ReadStep, TestPort, WriteStep};
 use crate::oracle::hex::ref_encode;
 use crate::props::c01::{addr_strategy, byte_strategy, FrameCase};
 
-pub const RULE: &str = "read: streams of 1..5 lines (valid frames, deliberately invalid lines; CRLF, bare LF or - for the last - no terminator) followed by 0..20 arbitrary trailing bytes, served by an instrumented reader that fragments the stream (every composition of the shortest stream of 14 bytes exhaustively, generated fragmentations beyond), injects ErrorKind::Interrupted at generated call indices, a hard error (Other/TimedOut/WouldBlock/UnexpectedEof) at every call index in turn, and early EOF or a timeout when the stream ends; Frame::read is called until the stream is used up and each call must consume exactly up to and including the next line feed (cursor measured inside the reader) and return what decoding that line returns; a hard error must surface as FrameError::Io. write: frames written to an instrumented sink that accepts 1..k bytes per call, reports Interrupted, Ok(0) or a hard error at generated / every call index: success must deliver exactly the CRLF encoding, failure a prefix and FrameError::Io. Non-trivial = a stream with >= 2 lines and a non-trivial fragmentation, or any injected fault; distinct by hash of the case";
+pub const RULE: &str = "read: streams of 1..5 lines (valid frames, deliberately invalid lines; CRLF, bare LF or - for the last - no terminator) followed by 0..20 arbitrary trailing bytes (frames of 0..19 data bytes mostly, 127/254/255 at a lower rate, plus a sweep of three back-to-back frames of every data length 0..=255), served by an instrumented reader that fragments the stream (every composition of the shortest stream of 14 bytes exhaustively, generated fragmentations beyond), injects ErrorKind::Interrupted at generated call indices, a hard error (Other/TimedOut/WouldBlock/UnexpectedEof) at every call index in turn, and early EOF or a timeout when the stream ends; Frame::read is called until the stream is used up and each call must consume exactly up to and including the next line feed (cursor measured inside the reader) and return what decoding that line returns; a hard error must surface as FrameError::Io. write: frames written to an instrumented sink that accepts 1..k bytes per call, reports Interrupted, Ok(0) or a hard error at generated / every call index: success must deliver exactly the CRLF encoding, failure a prefix and FrameError::Io. Non-trivial = a stream with >= 2 lines and a non-trivial fragmentation, or any injected fault; distinct by hash of the case";
 pub const ASSUMPTIONS: &[&str] = &[
     "\"decoding that line\" is Frame::from_bytes on the bytes the reader handed out (the decoder itself is C03's subject)",
     "verdicts are derived from the calls the implementation actually made (recorded by the reader/sink), not from a predicted call pattern",
